@@ -286,6 +286,7 @@ struct DaemonScenario : Scenario {
   // ------------------------------------------------------------------ step monitors
   void after_step(World &w, Proc &p, const Step &st) override {
     if (st.op == VK_WRITE && (st.tag == TAG_LCMD || st.tag == TAG_RCMD) && st.ret > 0) drain_commands(w, st.tag == TAG_LCMD ? 0 : 1);
+    if (st.injected && st.err && p.vpid == sendpid) for (auto &kv : ledger) for (auto &r : kv.second.rc) r.awaiting_mark = false;   // a mark that could not be written
     if (st.injected && st.err) { faults_seen++; w.counters["faults_injected"]++; history += " FAULT(" + opname(st.op) + " " + st.path + ")"; }
     if (w.aborted) return;
     bool fsop = (st.op == VK_LINK || st.op == VK_UNLINK || st.op == VK_RENAME || st.op == VK_OPEN || st.op == VK_KILL);
@@ -414,6 +415,7 @@ struct DaemonScenario : Scenario {
   }
 
   void on_livelock(World &w, Proc &p) override {
+    if (p.vpid == sendpid && !M("C16")) return;
     if (p.vpid == sendpid) w.violation("C16:busy-loop", "qmail-send repeats the same sequence of calls around select() without blocking and without making progress, while every other process is blocked (busy loop); history:" + history);
     else Scenario::on_livelock(w, p);
   }
